@@ -64,7 +64,29 @@ SCORES = [0.0, -0.0, 1.0, 0.2, 0.33, 0.5, 0.5000000000000001, 0.4999999999999999
           float("nan"), float("inf"), float("-inf"), 1e-320, -0.3, 2.0, 0.9, 0.8]
 
 
-def draw_config(r) -> Dict[str, Any]:
+# validator-accepted extreme scalars (one forced history each)
+EXTREMES = [
+    {"update": {"mode": "proportional", "alpha": float("inf"), "clamp_min": -1.0, "clamp_max": 1.0}},
+    {"update": {"mode": "proportional", "alpha": 1e308}},
+    {"update": {"mode": "additive", "alpha": float("inf")}},
+    {"decay": {"floor": float("nan")}},
+    {"update": {"clamp_min": float("-inf"), "clamp_max": float("inf")}},
+    {"update": {"clamp_min": -1e-300, "clamp_max": 1e-300}},
+]
+
+
+def safe(o):
+    """JSON-safe copy (non-finite floats as strings)"""
+    if isinstance(o, dict):
+        return {k: safe(v) for k, v in o.items()}
+    if isinstance(o, (list, tuple)):
+        return [safe(v) for v in o]
+    if isinstance(o, float) and not math.isfinite(o):
+        return repr(o)
+    return o
+
+
+def draw_config(r, override=None) -> Dict[str, Any]:
     from configs.validate import validate_config
     for _ in range(100):
         lo, hi = r.choice([(-1.0, 1.0), (-1.0, 1.0), (-0.9, 0.9), (-0.5, 0.5), (0.0, 1.0), (-1.0, 0.0), (-0.25, 0.3),
@@ -84,6 +106,10 @@ def draw_config(r) -> Dict[str, Any]:
                          "cap_per_turn": r.choice([0, 1, 4])},
                "promotion": {"enabled": True, "label_mode": r.choice(["lexmin", "concat_k"]), "topk_label_ids": r.choice([1, 3]),
                              "attach_weight": r.choice([0.5, 0.3, 1.0, -0.5, 0.0]), "cap_per_turn": r.choice([0, 1, 2])}}
+        if override:
+            raw.update({"coactivation_threshold": 0.2, "observe_top_k": 64, "pair_cap_per_obs": 2048})
+        for k, v in (override or {}).items():
+            raw[k].update(v)
         try:
             return validate_config({"graph": raw})["graph"]
         except Exception:
@@ -94,9 +120,9 @@ def draw_config(r) -> Dict[str, Any]:
 def gen_history(args) -> Dict[str, Any]:
     """run one seeded random history on the real code and record it"""
     from clematis.engine import gel
-    seed, tidn, steps, tol = args
+    seed, tidn, steps, tol = args[:4]
     r = rng(seed, "gel-history", tidn)
-    gcfg = draw_config(r)
+    gcfg = draw_config(r, EXTREMES[args[4]] if len(args) > 4 and args[4] is not None else None)
     ids = r.sample(POOL, r.choice([2, 3, 4, 6]))
     rank = universe(POOL)
     on_ctx = {"graph": gcfg}
@@ -220,7 +246,8 @@ def check(run) -> None:
     n, steps = (64, 60) if q else (3000, 160)
     tol = sorted(e["signature"].get("cause") for e in run.known
                  if e.get("status") == "open" and e["signature"].get("clause") == "WithinClamp" and e["signature"].get("cause"))
-    args = [(run.seed, i + 1, steps, tuple(tol)) for i in range(n)]
+    args = [(run.seed, i + 1, steps, tuple(tol), None) for i in range(n)]
+    args += [(run.seed, 900001 + j, steps, tuple(tol), j) for j in range(len(EXTREMES))]
     traces = pmap(gen_history, args, chunk=4)
     cfgs = {t["tid"]: t.pop("cfg") for t in traces}
     ctl: List[Dict[str, Any]] = []
@@ -232,7 +259,7 @@ def check(run) -> None:
                 break
         else:
             raise TLCError(f"no trace offers a place for the negative control {kind!r}")
-    B = 64 if q else 500
+    B = 128 if q else 500
     verdicts: Dict[int, Tuple[str, int]] = {}
     for b in range(0, len(traces), B):
         batch = traces[b:b + B] + (ctl if b == 0 else [])
@@ -254,16 +281,16 @@ def check(run) -> None:
             continue
         clause, _, cause = verdict.partition(":")
         e = t["ev"][pos - 1] if 0 < pos <= len(t["ev"]) else None
-        cfgd = cfgs[t["tid"]]
+        cfgd = safe(cfgs[t["tid"]])
         run.fail(clause, {"clause": clause, "cause": cause},
                  {"tid": t["tid"], "position": pos, "graph_config": cfgd, "event": _brief(e), "previous": _brief(t["ev"][pos - 2]) if pos >= 2 else None},
                  f"random history {t['tid']} ({steps} steps, graph config update={cfgd['update']} decay={cfgd['decay']}): "
                  f"event {pos} ({e['op'] if e else '?'}) rejected by GelTrace: {verdict}",
-                 replay={"family": "trace.random", "args": [run.seed, t["tid"], steps, list(tol)]})
+                 replay={"family": "trace.random", "args": [run.seed, t["tid"], steps, list(tol), (t["tid"] - 900001) if t["tid"] > 900000 else None]})
     run.extra["trace_events_validated"] = ops
     if traces:
         t = traces[0]
-        run.sample({"family": "GelTrace", "graph_config": cfgs[t["tid"]], "first_events": [_brief(e) for e in t["ev"][:4]]}, cap=12)
+        run.sample({"family": "GelTrace", "graph_config": safe(cfgs[t["tid"]]), "first_events": [_brief(e) for e in t["ev"][:4]]}, cap=12)
 
 
 def _brief(e):
@@ -286,8 +313,8 @@ def dec(w) -> Any:
 def replay(r) -> List[Tuple[str, str]]:
     """re-generate the history and validate it again (own scratch directory)"""
     from .. import tlc as _tlc
-    seed, tidn, steps, tol = r["args"]
-    t = gen_history((seed, tidn, steps, tuple(tol)))
+    seed, tidn, steps, tol, ext = (list(r["args"]) + [None])[:5]
+    t = gen_history((seed, tidn, steps, tuple(tol), ext))
     t.pop("cfg")
     wd = os.path.join("/verif/.work", "C18_replay")
     os.makedirs(wd, exist_ok=True)
